@@ -25,9 +25,6 @@ func BellmanFordFrom(u graph.Node, g traverse.Graph) (path Shortest, ok bool) {
 		}
 		path = newShortestFrom(u, graph.NodesOf(h.Nodes()))
 	} else {
-		if g.From(u.ID()) == graph.Empty {
-			return Shortest{from: u}, true
-		}
 		path = newShortestFrom(u, []graph.Node{u})
 	}
 	path.dist[path.indexOf[u.ID()]] = 0
@@ -106,9 +103,6 @@ func BellmanFordAllFrom(u graph.Node, g traverse.Graph) (path ShortestAlts, ok b
 		}
 		path = newShortestAltsFrom(u, graph.NodesOf(h.Nodes()))
 	} else {
-		if g.From(u.ID()) == graph.Empty {
-			return ShortestAlts{from: u}, true
-		}
 		path = newShortestAltsFrom(u, []graph.Node{u})
 	}
 	path.dist[path.indexOf[u.ID()]] = 0
